@@ -35,23 +35,25 @@ def assoc_const(prog, impl_ty, name):
     return None
 
 
-def check(run):
+def check(run, prefix="O11"):
+    P = prefix
     from . import detectors as _DN
-    _DN.ob_new_fields(run, "O11.14", ['shredder'], 'the coders are reused for every slice (shredder pool): state left behind by one slice must not reach the next')
+    _DN.ob_new_fields(run, P + ".14", ['shredder'], 'the coders are reused for every slice (shredder pool): state left behind by one slice must not reach the next')
     from . import detectors as _DC
-    _DC.ob_narrowing_casts(run, "O11.13", ['shredder'], 'shard counts, sizes and indices: a truncated length pads or splits the payload at the wrong place')
+    _DC.ob_narrowing_casts(run, P + ".13", ['shredder'], 'shard counts, sizes and indices: a truncated length pads or splits the payload at the wrong place')
     from . import detectors as _DL
-    _DL.ob_loop_exits(run, "O11.11", ['shredder'], 'every shard has to be encoded / restored: a loop that stops early leaves shreds missing')
-    ob_decode_tail(run, "O11.10")
-    ob_restored_size_bound(run, "O11.12")
-    ob_payload_decode_gate(run, "O11.8")
-    ob_coder_reset(run, "O11.9")
-    ob_validated_set(run, "O11.7")
-    ob_padding_arithmetic(run, "O11.6")
+    _DL.ob_loop_exits(run, P + ".11", ['shredder'], 'every shard has to be encoded / restored: a loop that stops early leaves shreds missing')
+    ob_decode_tail(run, P + ".10")
+    ob_pets_withheld(run, P + ".15")
+    ob_restored_size_bound(run, P + ".12")
+    ob_payload_decode_gate(run, P + ".8")
+    ob_coder_reset(run, P + ".9")
+    ob_validated_set(run, P + ".7")
+    ob_padding_arithmetic(run, P + ".6")
     prog = run.program("lib")
 
     # ------------------------------------------------------------------ O11.1
-    o = run.ob("O11.1", "shred geometry constants and per-implementation identities",
+    o = run.ob(P + ".1", "shred geometry constants and per-implementation identities",
                "with other constants '32 of 64' is simply false; a coder built for another coding count or a size limit ignoring the appended key corrupts or rejects maximal slices", floor=18)
     want = {"DATA_SHREDS": 32, "TOTAL_SHREDS": 64}
     vals = {}
@@ -101,7 +103,7 @@ def check(run):
             o.check(t[0] == "const" and t[2] == 32, "ReedSolomonCoder::new|%s" % mir.short(cc.name), "original shard count = DATA_SHREDS", cc.span, {"arg": mir.show(t)})
 
     # ------------------------------------------------------------------ O11.2
-    o = run.ob("O11.2", "fewer than DATA_SHREDS shreds never reach the Reed-Solomon decoder",
+    o = run.ob(P + ".2", "fewer than DATA_SHREDS shreds never reach the Reed-Solomon decoder",
                "decoding with too few shards panics inside the decoder ('just added enough shreds') or fabricates data", floor=4)
     b = prog.body(RS + "::deshred")
     if b is None:
@@ -136,7 +138,7 @@ def check(run):
                 "ValidatedShreds::shred_count|counts-some", "shred_count() counts the Some entries of self.shreds (flatten / filter(is_some))", sc.span)
 
     # ------------------------------------------------------------------ O11.3
-    o = run.ob("O11.3", "oversized payloads are refused before encoding; every shredder routes its payload through that check",
+    o = run.ob(P + ".3", "oversized payloads are refused before encoding; every shredder routes its payload through that check",
                "an oversized slice would be split into shards larger than MAX_DATA_PER_SHRED (shreds exceed the datagram size) or panic in the encoder", floor=6)
     b = prog.body(RS + "::shred")
     if b is None:
@@ -168,7 +170,7 @@ def check(run):
         o.check(bool(ok), "%s::shred|through-size-check" % im, "%s::shred encodes through ReedSolomonCoder::shred(..)? before assembling shreds" % im, x.span)
 
     # ------------------------------------------------------------------ O11.4
-    o = run.ob("O11.4", "on any decoding error the supplied shreds are left untouched: nothing fallible runs after the in-place fill",
+    o = run.ob(P + ".4", "on any decoding error the supplied shreds are left untouched: nothing fallible runs after the in-place fill",
                "an error after the mutation leaves regenerated (possibly wrong) shreds in the caller's array although reconstruction was rejected", floor=2)
     db = [x for dpath, x in prog.bodies.items() if dpath == SH + "Shredder::deshred"]
     if not db:
@@ -204,7 +206,7 @@ def check(run):
             o.check(not bad, "Shredder::deshred|nothing-fallible-after-fill", "no error exit is reachable after fill_missing_shreds", f.span, {"fallible_after": bad})
 
     # ------------------------------------------------------------------ O11.5
-    o = run.ob("O11.5", "the Ok path of deshred passes the layout, Merkle-root and padding gates; regenerated shreds carry the checked tree's proofs and a received signature",
+    o = run.ob(P + ".5", "the Ok path of deshred passes the layout, Merkle-root and padding gates; regenerated shreds carry the checked tree's proofs and a received signature",
                "without the root comparison a node regenerates and re-serves shreds the leader never signed", floor=6)
     for x in db:
         fills = x.calls_to(SH + "fill_missing_shreds")
@@ -217,6 +219,31 @@ def check(run):
             o.check(passed("check_merkle_tree"), "Shredder::deshred|gate|merkle-root", "behind check_merkle_tree(..) being Ok", f.span, det)
             o.check(passed("deshred_validated_shreds"), "Shredder::deshred|gate|decode", "behind deshred_validated_shreds(..) being Ok", f.span, det)
             o.check(passed("::try_from"), "Shredder::deshred|gate|payload", "behind SlicePayload::try_from(..) being Ok", f.span, det)
+            # ... and behind nothing else: any 32 shreds of an honest slice pass these gates; a further size / padding heuristic rejects honest
+            # slices of some lengths for some shredders
+            gates = ("try_new", "check_merkle_tree", "deshred_validated_shreds", "try_from")
+            wrappers = ("branch", "ok_or", "ok_or_else", "map_err", "ok", "as_ref", "as_slice", "from_residual", "into")
+
+            def outer_call(t):
+                while isinstance(t, tuple) and t:
+                    if t[0] in ("variant", "field", "discr", "ref", "deref"):
+                        t = t[1]
+                    elif t[0] == "call" and t[1].rsplit("::", 1)[-1] in wrappers and t[2]:
+                        t = t[2][0]
+                    else:
+                        break
+                return t[1].rsplit("::", 1)[-1] if isinstance(t, tuple) and t and t[0] == "call" else None
+
+            def is_gate(a):
+                return a[0] in ("variant", "bool", "is_some", "is_ok") and isinstance(a[1][0], tuple) and outer_call(a[1][0]) in gates
+
+            def is_empty_test(a):
+                # `shreds.iter().all(Option::is_none)` in any spelling: only the shreds argument and iterator plumbing take part
+                ts = [t for t in a[1] if isinstance(t, tuple)]
+                names = set(y[1].rsplit("::", 1)[-1] for t in ts for y in mir.walk(t) if isinstance(y, tuple) and y and y[0] == "call")
+                return bool(ts) and all(K.mentions_arg(x, t, 2) or (t[0] == "local") for t in ts) and names <= {"all", "any", "iter", "into_iter", "next", "is_none", "is_some", "deref", "as_ref", "as_slice"}
+            extra = D.extra_guards(prog, x, f.bb, [is_gate, is_empty_test])
+            o.check(not extra, "Shredder::deshred|gate|no-other", "no condition besides the four gates (and the not-empty test) stands before the restored slice", f.span, {"extra": G.atoms_show(extra)})
             tree = x.operand_term(f.args[3])
             sig = x.operand_term(f.args[4])
             o.check(K.mentions_call(tree, "check_merkle_tree"), "Shredder::deshred|fill|tree", "proofs come from the tree that check_merkle_tree validated", f.span, {"tree": mir.show(tree)[:120]})
@@ -536,6 +563,26 @@ def ob_restored_size_bound(run, oid):
                 {"guards": G.atoms_show(G.guard_atoms(b, c.bb, prog))[-3:]})
     o.check(n >= 1, "ReedSolomonCoder::deshred|append|found", "%d append site(s) of the reassembled payload examined" % n, b.span)
     o.check(bool(b.aggregates(SH + "reed_solomon::ReedSolomonDeshredError", "TooMuchData")), "ReedSolomonCoder::deshred|TooMuchData", "exceeding it is TooMuchData", b.span)
+
+
+def ob_pets_withheld(run, oid):
+    prog = run.program("lib")
+    o = run.ob(oid, "PetsShredder withholds the LAST Reed-Solomon data shard, identically when shredding and when regenerating (one unconditional data.pop() each, nothing else removed)",
+               "positions are implicit: the receiver treats the DATA_SHREDS-1 data shreds it sees as originals 0..30 and the withheld one as original 31; withholding another shard shifts every "
+               "later shard by one and no subset of shreds restores the slice", floor=2)
+    RAW = SH + "reed_solomon::RawShreds"
+    for fn in ("shred", "deshred_validated_shreds"):
+        bs = [b for d, b in prog.bodies.items() if d.startswith("<" + SH + "PetsShredder as") and d.endswith("::" + fn)]
+        if not bs:
+            o.missing("PetsShredder::" + fn)
+            continue
+        b = bs[0]
+        muts = [c for c in b.calls() if c.args and K.mentions_field(b.operand_term(c.args[0]), "data", "RawShreds") and "Vec" in c.name
+                and c.name.rsplit("::", 1)[-1] in ("pop", "remove", "swap_remove", "drain", "truncate", "retain", "split_off", "clear", "insert", "push", "dedup")]
+        ok = len(muts) == 1 and muts[0].name.rsplit("::", 1)[-1] == "pop" and not D.extra_guards(prog, b, muts[0].bb, [lambda a: a[0] in ("variant", "is_ok", "is_some") and any(
+            isinstance(t, tuple) and (K.mentions_call(t, "shred") or K.mentions_call(t, "deshred")) for t in a[1])])
+        o.check(ok, "PetsShredder::%s|withholds-last" % fn, "exactly one data.pop() (the last original shard), unconditional once coding succeeded", b.span,
+                {"mutations": [c.name.rsplit("::", 1)[-1] for c in muts]})
 
 
 def ob_decode_tail(run, oid):
